@@ -37,7 +37,7 @@ class SrThunk(Unit):
             elif name == "!enq" and cb_thread == t:
                 out.append((0, "enq")); cb_thread = None
             elif name == "!root":
-                out.append((last_role, "root"))
+                out.append((last_role, "root " + rest))
         return out
     def nontrivial(self, proj):
         return any(e.startswith("rc A") for _, e in proj)
